@@ -13,6 +13,12 @@ import BasicModel.Lemmas.GenNeg
 import BasicModel.Lemmas.DirectFrame
 import BasicModel.Lemmas.Inv
 import BasicModel.Lemmas.RunClear
+import BasicModel.Lemmas.Sim
+import BasicModel.Lemmas.ContParse
+import BasicModel.Lemmas.ContLine
+import BasicModel.Lemmas.LinkedInv
+import BasicModel.Lemmas.Resume
+import BasicModel.Lemmas.Inspect
 import BasicModel.Thm.C12
 import BasicModel.Thm.C13
 import BasicModel.Thm.C03
